@@ -57,27 +57,41 @@ func (o *Origins) ctxString() string {
 }
 
 // AcceptEdges computes the edges of o.Fn on which cond is established.
-func (o *Origins) AcceptEdges(cond *Cond) map[Edge]bool {
+func (o *Origins) AcceptEdges(cond *Cond) map[Edge]bool { return o.acceptEdges(cond, true) }
+
+// TestEdges is AcceptEdges restricted to edges whose own branch condition establishes cond, so that the
+// sibling edge is the condition's negation (facts derived from short-circuit booleans are conjunctions:
+// the sibling of such an edge does not negate the individual operand).
+func (o *Origins) TestEdges(cond *Cond) map[Edge]bool { return o.acceptEdges(cond, false) }
+
+func (o *Origins) acceptEdges(cond *Cond, derived bool) map[Edge]bool {
 	acc := map[Edge]bool{}
 	for _, e := range o.AllEdges() {
-		f := o.EdgeFact(e)
-		if f == nil {
-			continue
-		}
-		if cond.ForAll == "" && cond.Match(f, o) {
-			acc[e] = true
-			continue
-		}
-		// errnil(call g): g is a module function all of whose success returns establish cond
-		if f.Kind == "errnil" && f.Pos {
-			if o.calleesEstablish(f.A, cond, true) {
-				acc[e] = true
+		facts := o.EdgeFacts(e)
+		if !derived {
+			facts = nil
+			if bf := o.EdgeFact(e); bf != nil {
+				facts = []*Fact{bf}
 			}
 		}
-		// bool(call g) == want: boolean helper whose matching returns establish cond
-		if f.Kind == "bool" && f.A != nil && f.A.K == "call" {
-			if o.boolCalleeEstablishes(f.A, f.Pos, cond) {
+		for _, f := range facts {
+			if cond.ForAll == "" && cond.Match(f, o) {
 				acc[e] = true
+				break
+			}
+			// errnil(call g): g is a module function all of whose success returns establish cond
+			if f.Kind == "errnil" && f.Pos {
+				if o.calleesEstablish(f.A, cond, true) {
+					acc[e] = true
+					break
+				}
+			}
+			// bool(call g) == want: boolean helper whose matching returns establish cond
+			if f.Kind == "bool" && f.A != nil && f.A.K == "call" {
+				if o.boolCalleeEstablishes(f.A, f.Pos, cond) {
+					acc[e] = true
+					break
+				}
 			}
 		}
 	}
@@ -115,7 +129,7 @@ func (o *Origins) AcceptEdges(cond *Cond) map[Edge]bool {
 			if l.RangeOf == nil || o.Of(l.RangeOf).String() != cond.ForAll {
 				continue
 			}
-			in := o.AcceptEdges(inner)
+			in := o.acceptEdges(inner, derived)
 			// every completed iteration passes an accept edge: header not re-reachable from the body entry
 			cut := NewCut()
 			for e := range in {
